@@ -237,6 +237,47 @@ def check_tile(case):
 
 
 # ---------------------------------------------------------------------------------------
+# 2b. patches replaced through set_image, then re-assembled
+# ---------------------------------------------------------------------------------------
+
+
+def check_set_image(case):
+    """Every patch is given new, patch-specific content with set_image; afterwards each patch holds
+    exactly what was set for it, the base image is untouched, and assemble() is the mosaic of the
+    interiors of the arrays that were set (each voxel from the patch whose interior contains it)."""
+    img, arr, ref = _build(case)
+    p = _patches(case, img)
+    t = _tags(case)
+    ids = _ij(case)
+    new = {}
+    for n, (i, j) in enumerate(ids):
+        shp = p(i, j).img.shape
+        block = (np.arange(int(np.prod(shp)), dtype=float).reshape(shp) % 97) / 8.0 + 16.0 * (n + 1)
+        new[(i, j)] = block.astype(arr.dtype)
+        p.set_image(new[(i, j)].copy(), i, j)
+    for (i, j) in ids:
+        if not np.array_equal(p(i, j).img, new[(i, j)]):
+            raise Violation("set-image-overwritten", f"patch ({i},{j}) no longer holds the array that was set for it "
+                            f"after the other patches were set", t)
+    if not np.array_equal(img.img, arr):
+        raise Violation("set-image-changes-base", "set_image changed the base image", t)
+    out = p.assemble()
+    want = np.zeros_like(arr)
+    for (i, j) in ids:
+        roi = p.rois[i][j]
+        rel = p.relative_rois_without_overlap[i][j]
+        ph, pw = new[(i, j)].shape[:2]
+        rows = np.arange(ph)[rel[0]] + (roi[0].start or 0)
+        cols = np.arange(pw)[rel[1]] + (roi[1].start or 0)
+        if len(rows) and len(cols):
+            want[np.ix_(rows, cols)] = new[(i, j)][rel]
+    if out.img.shape != want.shape or not np.array_equal(out.img, want):
+        raise Violation("set-image-assemble", "assemble() after set_image is not the mosaic of the interiors of the "
+                        "arrays that were set", t)
+    return _outcome(case, p, len(ids) + 1)
+
+
+# ---------------------------------------------------------------------------------------
 # 3. each patch is the sub-image at its advertised place
 # ---------------------------------------------------------------------------------------
 
@@ -428,6 +469,7 @@ PROP = Prop(
     subs=[
         Sub("assemble_identity", check_assemble, gen=gen, n=_N, shards=_SH),
         Sub("interiors_tile", check_tile, gen=gen, n=_N, shards=_SH),
+        Sub("set_image_then_assemble", check_set_image, gen=gen, n=_N, shards=_SH),
         Sub("patch_is_subimage", check_subimage, gen=gen, n=_N, shards=_SH),
         Sub("corners_centres_agree", check_corners_centres, gen=gen, n=_N, shards=_SH),
         Sub("centre_in_own_box", check_centre_in_box, gen=gen, n=_N, shards=_SH),
